@@ -308,3 +308,85 @@ def closure_consumer(prog, closure_fn):
                 if o.kind == "const" and o.ref.get("closure") == closure_fn.id:
                     return parent, c, i
     return None
+
+
+def self_switches(fn, enum_pat=None, param=1):
+    """switch blocks over the discriminant of a place rooted at parameter `param`"""
+    out = []
+    rx = re.compile(enum_pat) if enum_pat else None
+    for bi in sorted(fn.live_blocks):
+        si = fn.switch_info(bi)
+        if not si or not si.get("enum") or si["place"] is None:
+            continue
+        if rx and not rx.search(si["enum"]):
+            continue
+        roots = fn.trace_place(si["place"])
+        if any(o.kind == "param" and o.ref == param for o in roots):
+            out.append((bi, si))
+    return out
+
+
+def arm_blocks(fn, si):
+    """variant -> blocks reachable from that arm's target and from no differently-targeted arm"""
+    arms = si["arms"]
+    reach = {v: fn.reachable_from(t) for v, t in arms.items()}
+    out = {}
+    for v, t in arms.items():
+        others = set()
+        for v2, t2 in arms.items():
+            if t2 != t:
+                others |= reach[v2]
+        out[v] = reach[v] - others
+    return out
+
+
+def closures_created_in(prog, fn, blocks):
+    out = []
+    for bi in blocks:
+        for s in fn.blocks[bi]["s"]:
+            if s[0] == "A" and s[2][0] == "agg" and s[2][1].get("k") in ("closure", "coroutine"):
+                g = prog.fns.get(s[2][1]["def"])
+                if g:
+                    out.append(g)
+    return out
+
+
+def calls_in(prog, fn, blocks, with_closures=True, _depth=0):
+    """calls located in `blocks` of fn, plus all calls of closures created there (recursively)"""
+    out = [c for c in fn.calls if c.bb in blocks]
+    if with_closures and _depth < 5:
+        for g in closures_created_in(prog, fn, blocks):
+            out.extend(calls_in(prog, g, g.live_blocks, True, _depth + 1))
+    return out
+
+
+def receiver_roots(prog, fn, operand, transparent=None, depth=0):
+    """ultimate_roots, additionally walking from a closure's own argument (param >= 2) to the
+    receiver of the iterator/Option adaptor the closure was handed to in the parent."""
+    tr = transparent or (TRANSPARENT | {"inner", "values", "keys", "iter", "flat_map", "map", "filter_map", "find_map", "any", "all", "try_for_each", "for_each", "into_iter", "next"})
+    out = []
+    for f, o in ultimate_roots(prog, fn, operand, tr):
+        if f.is_closure and o.kind == "param" and o.ref >= 2 and depth < 6:
+            cons = closure_consumer(prog, f)
+            if cons:
+                pf, pc, ai = cons
+                if pc.args and ai != 0:
+                    for r in receiver_roots(prog, pf, pc.args[0], tr, depth + 1):
+                        out.append((r[0], Origin(r[1].kind, r[1].ref, r[1].proj + ("()item",))))
+                    continue
+        out.append((f, o))
+    return out
+
+
+def ok_blocks(fn, variant="Ok"):
+    """blocks that assign Result::<variant>(..) / Option::<variant> to the return place"""
+    out = []
+    for bi in fn.live_blocks:
+        for s in fn.blocks[bi]["s"]:
+            if s[0] == "A" and s[1][0] == 0 and not s[1][1] and s[2][0] == "agg" and s[2][1].get("variant") == variant:
+                out.append(bi)
+    return out
+
+
+def proj_variants(proj):
+    return [p[1:] for p in proj if p.startswith("@")]
